@@ -238,7 +238,7 @@ pub fn ideal() -> &'static mut IdealLog {
 
 #[derive(Clone)]
 pub struct IdealImpl {
-    key: [u8; 16],
+    pub key: [u8; 16],
 }
 fn keystream(key: &[u8; 16], nonce: &[u8], i: usize) -> u8 {
     key[i % 16] ^ nonce[i % 12] ^ (i as u8).wrapping_add(0x3d)
